@@ -888,7 +888,7 @@ def format_(fmt, args, kwargs, interp):
         elif isinstance(val, Sym) and val.kind == 'real' and \
                 spec == ' 2.8E':
             out.append(sci_text(val, interp))
-        elif isinstance(val, Sym) and val.kind == 'real':
+        elif isinstance(val, Sym) and val.kind == 'real' and spec:
             out.append(float_text(val, spec, interp))
         elif isinstance(val, bool) or val is None:
             out.append(format(val, spec))
